@@ -802,6 +802,66 @@ def fresh_dir_case(rng, sess: Session):
             sess.nontrivial.add(chash(("fresh", nt, inj[0])))
 
 
+def concurrent_rewrite_case(rng, sess: Session):
+    """Two compactions of one stream at the same moment (a thread switch offered at every statement of the atomic writer):
+    neither raises, the log afterwards is exactly one of the two record sets, nothing else is left in the directory."""
+    import inspect
+    import clematis.io.atomic as A
+    from clematis.io.log import rewrite_jsonl
+    from vlib.harness import line_yields
+
+    with tmpdir("c16x_") as d:
+        old_env = {k: os.environ.get(k) for k in ("CLEMATIS_LOG_DIR", "CI")}
+        os.environ["CLEMATIS_LOG_DIR"] = d
+        os.environ.pop("CI", None)
+        name = rng.choice(["custom.jsonl", "t1.jsonl"])
+        nthreads = rng.choice([2, 2, 3])
+        sets = [[{"set": w, "i": i, "pad": "x" * rng.choice([0, 10, 5000, 70000])} for i in range(rng.randint(1, 6))] for w in range(nthreads)]
+        rewrite_jsonl(name, [{"set": "old", "i": 0}])
+        errors = []
+        barrier = threading.Barrier(nthreads)
+
+        def w(k):
+            try:
+                barrier.wait(10)
+                rewrite_jsonl(name, sets[k])
+            except Exception as ex:
+                errors.append((k, f"{type(ex).__name__}: {ex}"[:160]))
+
+        codes = [f.__code__ for f in vars(A).values() if inspect.isfunction(f) and f.__module__ == A.__name__]
+        old_si = sys.getswitchinterval()
+        sys.setswitchinterval(1e-6)
+        try:
+            with line_yields(codes, prob=0.6, seed=rng.randint(0, 10 ** 6), tool=5, name="verif-c16") as inj:
+                ths = [threading.Thread(target=w, args=(k,)) for k in range(nthreads)]
+                for t in ths:
+                    t.start()
+                for t in ths:
+                    t.join(60)
+            sess.count("concurrent_rewrite_yields_injected", inj[0])
+        finally:
+            sys.setswitchinterval(old_si)
+            for k, v in old_env.items():
+                if v is None:
+                    os.environ.pop(k, None)
+                else:
+                    os.environ[k] = v
+        sess.evaluations += 1
+        sess.count("concurrent_rewrites")
+        case = {"concurrent_rewrite": True, "threads": nthreads, "sizes": [len(x) for x in sets]}
+        got = open(os.path.join(d, name), "rb").read()
+        wants = ["".join(json.dumps(r, ensure_ascii=False, sort_keys=True, separators=(",", ":")) + "\n" for r in x).encode("utf-8") for x in sets]
+        left = [n for n in os.listdir(d) if n != name]
+        if errors:
+            sess.violation("concurrent-rewrite-raised", case, errors[:3])
+        elif got not in wants:
+            sess.violation("concurrent-rewrites-left-a-mixture-of-record-sets", case, {"bytes": len(got), "candidates": [len(x) for x in wants], "head": got[:80].decode("utf-8", "replace")})
+        elif left:
+            sess.violation("rewrite-left-temp-files", case, left)
+        else:
+            sess.nontrivial.add(chash(("xrewrite", nthreads, inj[0])))
+
+
 def capture_case(rng, sess: Session):
     """Deferred writing (log capture): writers append through the public writer while captures are opened, nested
     (`use_mux`, the orchestrator's begin/end helpers, the compute phase of the batch driver) and closed again, each closed
@@ -829,8 +889,10 @@ def capture_case(rng, sess: Session):
             elif r < 0.85 and depth > 0:
                 ops.append(("close", rng.choice(["flush", "flush", "drop"])))
                 depth -= 1
-            else:
+            elif r < 0.97:
                 ops.append(("compute", rng.randint(0, 3)))
+            else:
+                ops.append(("burst", rng.choice([150, 1000, 5000])))  # a chatty phase: thousands of records inside one capture
         while depth:
             ops.append(("close", "flush"))
             depth -= 1
@@ -887,6 +949,15 @@ def capture_case(rng, sess: Session):
                         n += 1
                         append_jsonl(stream, rec)
                         emit(stream, rec)
+                    elif op == "burst":
+                        for _b in range(arg):
+                            rec = {"w": w, "n": n}
+                            n += 1
+                            append_jsonl(f"w{w}.jsonl", rec)
+                            emit(f"w{w}.jsonl", rec)
+                        if stack:
+                            with lock:
+                                burst_seen.append(arg)
                     elif op == "open":
                         if arg == "use_mux":
                             m = logmux.LogMux()
@@ -926,6 +997,7 @@ def capture_case(rng, sess: Session):
                 problems.append({"writer": w, "raised": f"{type(ex).__name__}: {ex}"[:160], "tb": traceback.format_exc()[-300:]})
 
         results = {}
+        burst_seen = []
         orch_core.Orchestrator.run_turn = fake_run_turn
         try:
             if nthreads == 1:
@@ -947,6 +1019,8 @@ def capture_case(rng, sess: Session):
         sess.evaluations += 1
         sess.count("capture_histories")
         sess.count("capture_ops", sum(len(x) for x in scripts))
+        sess.count("capture_bursts_inside_a_capture", len(burst_seen))
+        sess.count("capture_bursts_of_5000_inside_a_capture", sum(1 for b_ in burst_seen if b_ >= 5000))
         sess.count("nested_captures", sum(1 for ops in scripts for i, o in enumerate(ops) if o[0] == "open" and any(q[0] == "open" for q in ops[:i])))
         if not problems and len(results) == nthreads:
             shared = on_disk("shared.jsonl")
@@ -1006,6 +1080,8 @@ def _work(args):
                 fresh_dir_case(rng, sess)
             for _ in range(40 if q else 1500):
                 capture_case(rng, sess)
+            for _ in range(12 if q else 400):
+                concurrent_rewrite_case(rng, sess)
     except Exception as ex:
         import traceback
         sess.inconclusive_because(f"harness error {type(ex).__name__}: {ex} @ {traceback.format_exc()[-500:]}")
@@ -1037,6 +1113,8 @@ def main(tier: str, seed: int):
     sess.require("scripted_rotations", 10)
     sess.require("rotation_histories_with_multi_digit_generations", 8)
     sess.require("capture_histories", 100)
+    sess.require("concurrent_rewrites", 30)
+    sess.require("capture_bursts_of_5000_inside_a_capture", 2)
     sess.require("nested_captures", 50)
     sess.finish()
 
@@ -1048,6 +1126,9 @@ def replay(body, tier, seed):
     rng = random.Random(0)
     if "threads" in case:
         writers_case(case, sess)
+    elif "concurrent_rewrite" in case:
+        for _ in range(200):
+            concurrent_rewrite_case(rng, sess)
     elif "capture_scripts" in case:
         for _ in range(300):
             capture_case(rng, sess)
